@@ -224,5 +224,8 @@ def run(c, facts, tier):
                 "%s emits the direct runtime print `%s` without a printer; together with an action that forces framed mode its output is written outside any frame" % (a, " ".join(row["tokens"])),
                 witness="-print-file-fid -print0" if a == "PrintFid" else None,
             )
+    from .. import report as _rep
+
+    _rep.require(c, facts, "c02", "C10.key", "printer requests", "each printing action asks the manager for its own destination (the argument as written) and terminator", lambda o: o["rule"] == "C02.action" and " uses printer " in o["instance"], "the destination table lists what the manager was asked for: it names the action's real destination only if the request carries the action's own argument unchanged (an argument escaped, trimmed or swapped at the call site ends up in the table as is — seed C10/AE) and its own terminator: decided by the C02.action rows")
     c.floor("printing actions that compile", nact, 8)
     c.control("C10.all-framed", True, "the rule distinguishes rows with and without a mgr.get_*printer hole (DefaultPrint/PrintFid rows have none)")
